@@ -95,6 +95,8 @@ fn show_tick(r: &Result<Result<(), ProtocolError>, Crash>) -> String {
 /// protocol and the link: whatever the two agree on through the `Interface` trait, provided
 /// methods included, is what runs).
 pub fn run(sim: &Sim, prop: &str, tier: Tier) -> Outcome {
+    // (an earlier run of this worker may have been unwound out of a handler)
+    DEPTH.with(|d| d.set(0));
     let kind = LinkKind::from_index(sim.draw(3));
     match kind {
         LinkKind::Usart => run_on(sim, prop, tier, kind, |d| ross_protocol::interface::usart::Usart::new(d)),
